@@ -50,6 +50,7 @@ type c20Corpus struct {
 
 var dcases = &Cases{Kind: "delaunay", Imports: "From Sdfx Require Import Algo.DelaunayCorr.\nOpen Scope float_scope.", Type: "dcase", Fn: "dmismatches", PerShard: 40}
 var pcases = &Cases{Kind: "incircle", Imports: "From Sdfx Require Import Algo.DelaunayCorr.\nOpen Scope float_scope.", Type: "pcase", Fn: "pmismatches", PerShard: 1500}
+var scases = &Cases{Kind: "super", Imports: "From Sdfx Require Import Algo.DelaunayCorr.\nOpen Scope float_scope.", Type: "scase", Fn: "smismatches", PerShard: 200}
 var did = 0
 
 func checkC20(c *Ctx, r *Report) error {
@@ -162,6 +163,20 @@ func checkC20(c *Ctx, r *Report) error {
 			off = v2.Vec{X: rng.Dyadic(200, 3), Y: rng.Dyadic(200, 3)}
 			stratum += "/offset"
 		}
+		// elongated sets: aspect 20..200, along x or along y (the super triangle must scale with the larger extent)
+		aspect, alongY := 1.0, false
+		if k%9 == 4 || k%9 == 8 {
+			aspect = []float64{20, 50, 200}[rng.Intn(3)]
+			alongY = k%9 == 8
+			stratum += fmt.Sprintf("/strip%g", aspect)
+			if alongY {
+				stratum += "y"
+			}
+			if npts > 40 {
+				npts = rng.Range(10, 40)
+				vs = make(v2.VecSet, npts)
+			}
+		}
 		clustered := k%11 == 5
 		if clustered {
 			stratum += "/clustered"
@@ -170,6 +185,13 @@ func checkC20(c *Ctx, r *Report) error {
 			x, y := rng.Dyadic(16, 12), rng.Dyadic(16, 12)
 			if clustered && i%2 == 0 {
 				x, y = x/16, y/16
+			}
+			if aspect > 1 {
+				if alongY {
+					x /= aspect
+				} else {
+					y /= aspect
+				}
 			}
 			vs[i] = v2.Vec{X: x + off.X, Y: y + off.Y}
 		}
@@ -195,6 +217,9 @@ func checkC20(c *Ctx, r *Report) error {
 		in, dn := t.InCircumcircle(p)
 		pcases.Add(fmt.Sprintf("(%d%%N, (%s,%s), (%s,%s), (%s,%s), (%s,%s), %s, %s)", did, CF(a.X), CF(a.Y), CF(b.X), CF(b.Y), CF(cc.X), CF(cc.Y), CF(p.X), CF(p.Y), CB(in), CB(dn)))
 		r.Case("incircle", fmt.Sprintf("ic:%x,%x,%x,%x,%x,%x,%x,%x", a.X, a.Y, b.X, b.Y, cc.X, cc.Y, p.X, p.Y), true)
+	}
+	if err := scases.Write(c.Out); err != nil {
+		return err
 	}
 	if err := dcases.Write(c.Out); err != nil {
 		return err
@@ -338,6 +363,16 @@ func delaunayCase(r *Report, stratum string, in v2.VecSet) {
 	}
 	if r.Evaluations%53 == 0 {
 		r.Sample(map[string]interface{}{"kind": "delaunay", "points": ptsList(in), "triangles": len(ts)})
+	}
+	if n >= 2 {
+		if st, err := render.VerifSuperTriangle(vs); err == nil {
+			did++
+			var ps []string
+			for _, p := range vs {
+				ps = append(ps, fmt.Sprintf("(%s,%s)", CF(p.X), CF(p.Y)))
+			}
+			scases.Add(fmt.Sprintf("(%d%%N, %s, (%s,%s,%s,%s,%s,%s))", did, CList(ps), CF(st[0].X), CF(st[0].Y), CF(st[1].X), CF(st[1].Y), CF(st[2].X), CF(st[2].Y)))
+		}
 	}
 	if n >= 2 && n <= 45 {
 		// the whole Bowyer-Watson run against the Gallina model (vs is now x-sorted, as the algorithm saw it)
